@@ -1364,6 +1364,8 @@ class _HNotFound(falcon.HTTPNotFound):
 _H_CLASSES = {'Base': _HBase, 'Mid': _HMid, 'Leaf': _HLeaf, 'Side': _HSide, 'Both': _HBoth, 'Exception': Exception,
               'HTTPError': falcon.HTTPError, 'HTTPNotFound': falcon.HTTPNotFound, 'MyNotFound': _HNotFound}
 
+_H_SMALL = sorted(_H_CLASSES)  # the generated histories draw from these nine
+
 
 class RegistrationHistory(Suite):
     """One app instance lives through a history of add_error_handler(class, handler_k) calls INTERLEAVED with requests
@@ -1376,7 +1378,7 @@ class RegistrationHistory(Suite):
     budget = {'quick': 2500, 'thorough': 60000}
 
     def strategy(self, tier):
-        cls = st.sampled_from(sorted(_H_CLASSES))
+        cls = st.sampled_from(_H_SMALL)
         op = st.one_of(st.tuples(st.just('reg'), cls, st.integers(0, 3)), st.tuples(st.just('raise'), cls),
                        st.tuples(st.just('raise'), cls))
         return st.builds(lambda stack, ops: {'stack': stack, 'ops': [list(o) for o in ops]},
@@ -1455,6 +1457,66 @@ class RegistrationHistory(Suite):
         if n_raise >= 2:
             labels.append('>=2_requests')
         return Info(rereg_after_served and n_raise >= 2, labels)
+
+
+def _grow_classes():
+    """A chain of 200 exception classes (Chain0 > Chain1 > ...) and 400 unrelated ones, for counts beyond the moderate range."""
+    prev = Exception
+    for i in range(200):
+        prev = type('Chain%d' % i, (prev,), {})
+        _H_CLASSES['Chain%d' % i] = prev
+    for i in range(400):
+        _H_CLASSES['Flat%d' % i] = type('Flat%d' % i, (Exception,), {})
+
+
+_grow_classes()
+
+
+class ManyHandlers(Suite):
+    """Counts beyond the moderate range through the same history interpreter: inheritance chains 20-200 classes deep with
+    a handler on every 7th / 64th class (the nearest registered ancestor must win, at any distance), 70-400 unrelated
+    classes with a handler each, re-registrations after the types were served; on both stacks."""
+
+    name = 'many_handlers'
+    exhaustive = True
+    budget = {'quick': 1, 'thorough': 1}
+
+    def cases(self, tier):
+        for stack in ('wsgi', 'asgi'):
+            for n in ((70, 200) if tier == 'quick' else (20, 63, 64, 65, 70, 129, 200)):
+                for every in (7, 64):
+                    yield {'stack': stack, 'shape': 'chain', 'n': n, 'every': every}
+            for n in ((70, 400) if tier == 'quick' else (63, 64, 65, 70, 129, 257, 400)):
+                yield {'stack': stack, 'shape': 'flat', 'n': n}
+
+    def run(self, case):
+        n = case['n']
+        ops = []
+        if case['shape'] == 'chain':
+            every = case['every']
+            for i in range(0, n, every):
+                ops.append(['reg', 'Chain%d' % i, (i // every) % 4])
+            for i in (n - 1, n // 2, every, every - 1, 0, n - 1):
+                ops.append(['raise', 'Chain%d' % max(i, 0)])
+            ops.append(['reg', 'Chain%d' % (n // 2), 3])
+            ops.append(['raise', 'Chain%d' % (n - 1)])
+            ops.append(['reg', 'Chain0', 2])
+            ops.append(['raise', 'Chain%d' % max(every - 1, 0)])
+            ops.append(['raise', 'Chain%d' % (n - 1)])
+        else:
+            for i in range(n):
+                ops.append(['reg', 'Flat%d' % i, i % 4])
+            for i in (0, n - 1, n // 2, 64, n):
+                ops.append(['raise', 'Flat%d' % min(i, 399)])
+            ops.append(['reg', 'Flat%d' % (n - 1), (n + 1) % 4])
+            ops.append(['raise', 'Flat%d' % (n - 1)])
+        try:
+            RegistrationHistory().run({'stack': case['stack'], 'ops': ops})
+        except Violation as v:
+            d = v.detail
+            raise Violation(v.kind, '%s ... %s\n  compact case=%r' % (d[:300], d[-400:], case))
+        return Info(True, [case['stack'], 'shape:' + case['shape'], 'n:%s' % ('<=64' if n <= 64 else '>64')])
+
 
 
 class _ResetExc(Exception):
@@ -1562,7 +1624,7 @@ class ResetEnum(Suite):
         return Info(any(case['pre']), [case['stack'], 'handler:' + action] + (['rendered_before_raise'] if case['render'] else []))
 
 
-SUITES = [HandlerChoice(), DefaultRendering(), RegistrationHistory(), ResetEnum()]
+SUITES = [HandlerChoice(), DefaultRendering(), RegistrationHistory(), ManyHandlers(), ResetEnum()]
 
 def render_body_dropped(suite_name, case, violation):
     """Finding F25: whatever the error handling composes for an exception raised while the body is rendered,
